@@ -67,7 +67,11 @@ type access struct {
 // Sched is one controlled run.
 type Sched struct {
 	MapPoints bool
-	Horizon   int
+	// Coarse, if set, limits scheduling points to the operations whose label it accepts (plus operations that
+	// actually have to block). For scenarios whose executions have too many fine-grained points to enumerate, when
+	// the oracle only depends on the coarse ones (e.g. snapshot reads against commits).
+	Coarse  func(label string) bool
+	Horizon int
 	ticks       []*thread
 	clockOffset atomic.Int64 // virtual clock = real clock + offset (ns); timers advance it
 	// TimerDurations records the delay requested by every AfterFunc of this run
@@ -355,6 +359,9 @@ func (s *Sched) yield(t *thread, o *op) {
 			}
 			s.mu.Unlock()
 		}
+	}
+	if s.Coarse != nil && !s.Coarse(o.label) && !o.sleeper && (o.enabled == nil || o.enabled()) {
+		return // not a scheduling point in a coarse run: the operation can proceed at once
 	}
 	t.pending = o
 	t.steps++
